@@ -333,3 +333,103 @@ Proof.
     destruct Hshape as [[n Hpv]|Hf]; [rewrite Hpv in Hlen; done|congruence].
 Qed.
 End cids_all.
+
+(* ------------------------------------------------------------------ one step, all forms, provider lists of length <= 2 *)
+Section split_step.
+Variable D : tenv.
+Variable F : list fundef.
+Variable teq : sty -> sty -> Prop.
+Hypothesis Hteq : teq_laws D teq.
+Hypothesis HF : funs_typed D F teq.
+
+Lemma multi_action n1 n2 body nx :
+  is_fwd body = false ->
+  match action_of Async D (Proc [n1; n2] body nx) with ADup | AErr _ | ANever => True | _ => False end.
+Proof. intros Hf. destruct body; cbn; unfold send_on, recv_on, internal; cbn; repeat case_match; done. Qed.
+
+(* a single-provider process whose head form is linear: linear rule, GC receipt, or adoption of two providers *)
+Lemma lin_case2 Δ c self n a body next c' :
+  cfg_typed D F teq Δ c -> Topo c -> ns_ok c -> SplitCfg c ->
+  procs c !! self = Some (Proc [n] body next) -> chan n = Some a -> head_lin body ->
+  step Async D F c (Run self) = SStep c' ->
+  exists ls, sax_stepS01 F (α c) ls (α c') /\ labels c' = labels c ++ ls.
+Proof.
+  intros Hc Ht Hns Hsc Hp Hn Hlin Hstep.
+  set (p := Proc [n] body next) in *.
+  assert ((exists k st m, action_of Async D p = ARecv k /\ chans c !! k = Some st /\ ch_buf st = Some m /\
+             (m_rule m = RGC \/ (m_rule m = RFWD /\ exists m1 m2, m_provs m = [m1; m2]))) \/
+          (forall k st m, action_of Async D p = ARecv k -> chans c !! k = Some st -> ch_buf st = Some m ->
+             m_rule m <> RGC /\ (m_rule m = RFWD -> exists n', m_provs m = [n']))) as [Hsp|Hng].
+  { destruct (action_of Async D p) as [| |k0 m0|k0| |k0 pv|w] eqn:Hact; try (right; intros; congruence).
+    destruct (chans c !! k0) as [st0|] eqn:Hk0; [|right; intros ? ? ? [= <-] ?; congruence].
+    destruct (ch_buf st0) as [m1|] eqn:Hb0; [|right; intros ? ? ? [= <-] ? ?; congruence].
+    destruct (m_rule m1) eqn:Hr.
+    all: try (right; intros ? ? ? [= <-] ? ?; assert (st = st0) by congruence; subst; assert (m = m1) by congruence; subst;
+              split; congruence).
+    - destruct (sc_msgs c Hsc k0 st0 m1 Hk0 Hb0 Hr) as [[n' Hpv]|(m1' & m2' & Hpv)].
+      + right. intros ? ? ? [= <-] ? ?. assert (st = st0) by congruence. subst. assert (m = m1) by congruence. subst.
+        split; [congruence|eauto].
+      + left. exists k0, st0, m1. split_and!; try done. right. eauto.
+    - left. exists k0, st0, m1. split_and!; try done. by left. }
+  - destruct Hsp as (k & st & m & Hact & Hk & Hb & Hrule).
+    apply step_run_async_inv in Hstep as (p0 & Hp0 & Hstep). assert (p0 = p) by congruence. subst p0.
+    rewrite Hact in Hstep. destruct Hstep as (st' & Hk' & Hst). assert (st' = st) by congruence. subst st'.
+    rewrite Hb in Hst. destruct Hst as (e & He & ->).
+    destruct Hrule as [Hrule|[Hrule (m1 & m2 & Hpv2)]].
+    + (* GC: as in the weakening fragment *)
+      destruct (gc_on_self D F teq Hteq HF Δ c self p k st m Hc Ht Hp Hact Hk Hb Hrule) as (n0 & Hpv & Hn0).
+      unfold p in Hpv. cbn in Hpv. assert (n0 = n) by congruence. subst n0. assert (k = a) by congruence. subst k.
+      assert (is_fwd body = false) as Hnf.
+      { destruct body; try done. destruct droppable; [done|]. exfalso.
+        unfold on_message in He. rewrite Hrule in He. cbn in He. done. }
+      assert (e = let '(ss, cs, _) := droppable_fwds self p (free_names body) in Eff Finish ss cs [] []) as ->.
+      { unfold on_message in He. rewrite Hrule in He. cbn in He.
+        assert (match body with FFwd _ _ _ => true | _ => false end = false) as Hf by (by destruct body).
+        rewrite Hf in He. cbn in He. destruct (droppable_fwds self p (free_names body)) as [[ss cs] p']. by simplify_eq. }
+      destruct (droppable_fwds self p (free_names body)) as [[ss cs] p'] eqn:Hdf.
+      destruct (ct_procs _ _ _ _ _ Hc self p Hp) as (s & rs & _ & _ & Hty). cbn in Hty.
+      destruct (droppable_fwds_spec self _ _ _ _ _ Hdf) as (Hlen & Hcs & Hobjs & Hpl).
+      { apply Forall_forall. intros x Hx. destruct (free_names_closed D F teq Δ rs s body x Hty Hx) as [t Hct].
+        by eapply chan_ty_init. }
+      exists []. split; [right|by rewrite labels_effect, labels_put].
+      eapply (refine_finish F c self p a st m ss cs [SDrop a; SProc a body]); try done.
+      * assert (length (free_names body) = length cs) as Hlc by (rewrite Hcs; by rewrite map_length, seq_length).
+        rewrite Hcs at 1. f_equal. f_equal. exact Hlc.
+      * unfold proc_obj, pobj, msg_obj. cbn. rewrite Hn, Hrule, (recv_form_obj D n body next a Hact Hnf a). apply Permutation_swap.
+      * rewrite Hobjs. apply (s_gc _ a (SProc a body)). done.
+    + (* a contraction request with two providers: the process adopts them (copy) *)
+      pose proof (tres_typed_topo D F teq Hteq HF Δ c Hc Ht self p k st Hp Hact Hk) as Hres. rewrite Hb in Hres.
+      destruct (Hres Hrule) as [Hsc' Hnf]. unfold self_chan, prov0, p in Hsc'. cbn in Hsc'. assert (k = a) by congruence. subst k.
+      cbn in Hnf.
+      assert (e = Eff (Continue (set_provs_body p (m_provs m) body)) [] [] (cids_of [n]) []) as ->.
+      { unfold on_message in He. rewrite Hrule in He. cbn in He.
+        assert (match body with FFwd _ _ _ => true | _ => false end = false) as Hf by (by destruct body).
+        rewrite Hf in He. cbn in He. by simplify_eq. }
+      destruct (ct_msgs _ _ _ _ _ Hc a st m Hk Hb) as (T & HT & Hm). rewrite Hrule in Hm. destruct Hm as (_ & _ & Hall).
+      rewrite Hpv2 in Hall. apply Forall_cons_iff in Hall as [(z1 & ? & E1 & _) Hall]. apply Forall_cons_iff in Hall as [(z2 & ? & E2 & _) _].
+      exists []. split; [right|by rewrite labels_effect, labels_put].
+      unfold set_provs_body. rewrite Hpv2. cbn [pr_next p].
+      eapply (refine_copy F c self p a st m m1 m2 z1 z2 body); try done.
+      * unfold proc_obj, pobj, msg_obj. cbn. rewrite Hn, Hrule, Hpv2, E1, E2, (recv_form_obj D n body next a Hact Hnf a). apply Permutation_swap.
+      * intros m' Hm'. eapply (fresh_all D F teq Δ c self p m' Hc Hsc Hns Hp); [left; cbn; eauto|done].
+  - (* a linear rule *)
+    destruct (refines_sax01_at D F c self c') as (ls & H01 & Hl); [|done|exists ls; split; [by apply sax_step01_S|done]].
+    intros p0 Hp0. assert (p0 = p) by congruence. subst p0. split_and!.
+    + cbn. eauto.
+    + done.
+    + intros _. split_and!.
+      * eapply (fresh_all D F teq Δ c self p _ Hc Hsc Hns Hp); [left; cbn; eauto|done].
+      * eapply (ns_fresh_chan c self p _ Hns Hp). lia.
+      * eapply (ns_fresh_proc c self p _ Hns Hp). lia.
+    + intros k st Hact Hk. pose proof (tres_typed_topo D F teq Hteq HF Δ c Hc Ht self p k st Hp Hact Hk) as Hres.
+      destruct (ch_buf st) as [m|] eqn:Hb; [|done]. split; [|done].
+      destruct (ct_msgs _ _ _ _ _ Hc k st m Hk Hb) as (T & HT & Hm).
+      destruct (Hng k st m Hact Hk Hb) as [Hngc Hfw1].
+      unfold msg_ok. destruct (m_rule m) eqn:Hrule; try done.
+      * destruct Hm as (A & B & md & _ & _ & (c0 & t' & Hc0 & _)). eauto.
+      * destruct Hm as (fm & tm & A & _ & (c0 & t' & Hc0 & _)). eauto.
+      * destruct Hm as (bs & md & A & _ & _ & (c0 & t' & Hc0 & _)). eauto.
+      * destruct (Hfw1 eq_refl) as [n' Hpv']. exists n'. split; [done|].
+        destruct Hm as (_ & _ & Hall). rewrite Hpv' in Hall. apply Forall_cons_iff in Hall as [(c0 & t' & Hc0 & _) _]. eauto.
+Qed.
+End split_step.
